@@ -587,7 +587,7 @@ struct Budget {
 fn budget(tier: Tier) -> Budget {
     match tier {
         Tier::Quick => Budget { runs: driver::scale(6000) },
-        Tier::Thorough => Budget { runs: driver::scale(400000) },
+        Tier::Thorough => Budget { runs: driver::scale(1200000) },
     }
 }
 
